@@ -3468,7 +3468,7 @@ an exponent `ef` that is the least possible one or the preferred one; the indica
 "value below" ones; `is_tiny` is right when it matters -/
 def FinalPre (V : Nat) (m : Int) (c : Nat) (Ec : Int) (ML MG L G tiny : Bool) : Prop :=
   ∃ (cf : Nat) (ef : Int) (flv : Ind),
-    m ≤ ef ∧ eMin ≤ ef ∧ ef ≤ 6112 ∧ NE V (10 ^ (ef - m).toNat) cf flv ∧ V ≤ P34 * 10 ^ (ef - m).toNat ∧
+    m ≤ ef ∧ eMin ≤ ef ∧ ef ≤ 6300 ∧ NE V (10 ^ (ef - m).toNat) cf flv ∧ V ≤ P34 * 10 ^ (ef - m).toNat ∧
     (ef = eMin ∨ ef = m ∨ P33 * 10 ^ (ef - m).toNat ≤ V) ∧
     c ≤ P34 ∧ deliver c Ec = deliver cf ef ∧ L = flv.inexLtMid ∧ MG = flv.midGtEven ∧
     ((G = flv.inexGtMid ∧ ML = flv.midLtEven) ∨ (G = flv.midLtEven ∧ ML = flv.inexGtMid)) ∧
@@ -3532,7 +3532,7 @@ deliver exactly what the specification's `finish` says for the exact value `V·1
 theorem finalN_spec (rm : RoundingMode) (pf : UInt32) (res : U128) (zs : UInt64) (e3 : Int32) (ML MG L G tiny : Bool)
     (s : Bool) (V : Nat) (m : Int) (c : Nat) (Ec : Int)
     (hres : val128 res = c) (he3 : e3.toInt = Ec) (hzs : zs.toNat = (if s = true then 1 else 0) * 2^63)
-    (hV : 0 < V) (hmx : m ≤ eMax) (hEc : -6176 ≤ Ec ∧ Ec ≤ 6112)
+    (hV : 0 < V) (hmx : m ≤ eMax) (hEc : -6176 ≤ Ec ∧ Ec ≤ 6300)
     (hpre : FinalPre V m c Ec ML MG L G tiny) :
     finalN rm pf res zs e3 ML MG L G tiny =
       .ok (Dec.C17GenNext.ofBits (encode (finish (modeOf rm) s V 1 m m).1),
@@ -3966,7 +3966,7 @@ theorem FinalPre_eq (V : Nat) (m : Int) (c : Nat) (fl : Ind) (hm : m ≤ eMin) (
 /-- **above the least exponent** nothing is tiny -/
 theorem FinalPre_gt (V : Nat) (m : Int) (c : Nat) (Ec : Int) (ML MG L G : Bool)
     (h : ∃ (cf : Nat) (ef : Int) (flv : Ind),
-      m ≤ ef ∧ eMin ≤ ef ∧ ef ≤ 6112 ∧ NE V (10 ^ (ef - m).toNat) cf flv ∧ V ≤ P34 * 10 ^ (ef - m).toNat ∧
+      m ≤ ef ∧ eMin ≤ ef ∧ ef ≤ 6300 ∧ NE V (10 ^ (ef - m).toNat) cf flv ∧ V ≤ P34 * 10 ^ (ef - m).toNat ∧
       (ef = m ∨ P33 * 10 ^ (ef - m).toNat ≤ V) ∧
       c ≤ P34 ∧ deliver c Ec = deliver cf ef ∧ L = flv.inexLtMid ∧ MG = flv.midGtEven ∧
       ((G = flv.inexGtMid ∧ ML = flv.midLtEven) ∨ (G = flv.midLtEven ∧ ML = flv.inexGtMid))) :
@@ -4008,7 +4008,7 @@ structure MainOut (V : Nat) (m : Int) (c : Nat) (Ec : Int) (fl : Ind) : Prop whe
   lt : Ec < eMin → UPre V m c Ec fl
   eq : Ec = eMin → m ≤ eMin ∧ ∃ flv, NE V (10 ^ (eMin - m).toNat) c flv ∧ FlagsSim fl flv ∧ V ≤ P34 * 10 ^ (eMin - m).toNat
   gt : eMin < Ec → ∃ (cf : Nat) (ef : Int) (flv : Ind),
-      m ≤ ef ∧ eMin ≤ ef ∧ ef ≤ 6112 ∧ NE V (10 ^ (ef - m).toNat) cf flv ∧ V ≤ P34 * 10 ^ (ef - m).toNat ∧
+      m ≤ ef ∧ eMin ≤ ef ∧ ef ≤ 6300 ∧ NE V (10 ^ (ef - m).toNat) cf flv ∧ V ≤ P34 * 10 ^ (ef - m).toNat ∧
       (ef = m ∨ P33 * 10 ^ (ef - m).toNat ≤ V) ∧
       c ≤ P34 ∧ deliver c Ec = deliver cf ef ∧ FlagsSim fl flv
 
@@ -4048,7 +4048,7 @@ theorem MainOut.final_eq {V : Nat} {m : Int} {c : Nat} {Ec : Int} {fl : Ind} (h 
 it as it is, or — when `cN = 10^34`, which then lies above the value — as `10^33` with the exponent raised -/
 theorem MainOut_of_view (V : Nat) (m : Int) (cN : Nat) (EN : Int) (flN : Ind) (c : Nat) (Ec : Int) (fl : Ind)
     (hm : m ≤ EN) (hNE : NE V (10 ^ (EN - m).toNat) cN flN) (h34 : V ≤ P34 * 10 ^ (EN - m).toNat)
-    (hcar : cN = P34 → V < P34 * 10 ^ (EN - m).toNat) (hEN : EN ≤ 6112)
+    (hcar : cN = P34 → V < P34 * 10 ^ (EN - m).toNat) (hEN : EN ≤ 6300)
     (hbig : eMin < EN → EN = m ∨ P33 * 10 ^ (EN - m).toNat ≤ V)
     (hcode : (c = cN ∧ Ec = EN) ∨ (cN = P34 ∧ c = P33 ∧ Ec = EN + 1)) (hs : FlagsSim fl flN) (hcan : Canon fl)
     (hdig : Ec < eMin → 9 * 10 ^ ((eMin - Ec).toNat - 1) ≤ c) :
@@ -4124,7 +4124,7 @@ structure Ctx (A T x : Nat) (E m : Int) : Prop where
   hA0 : 0 < A
   hx33 : x = 0 ∨ P33 ≤ A
   hlow : E < eMin → 10 ^ (eMin - E).toNat ≤ A
-  hE : E ≤ 6111
+  hE : E ≤ 6200
 
 theorem Ctx.pow {A T x : Nat} {E m : Int} (h : Ctx A T x E m) : 10 ^ (E - m).toNat = T := by
   rw [h.hT]; congr 1; have := h.hm; omega
@@ -5598,7 +5598,7 @@ theorem finalK_done (p1 p2 p3 p4 : Bool) (rm : RoundingMode) (pf : UInt32) (res 
     (P128 R128 : U128) (P192 R192 : U192) (R256 : U256)
     (s : Bool) (V : Nat) (m : Int) (c : Nat) (Ec : Int)
     (hres : val128 res = c) (he3 : e3.toInt = Ec) (hzs : zs.toNat = (if s = true then 1 else 0) * 2^63)
-    (hV : 0 < V) (hmx : m ≤ eMax) (hEc : -6176 ≤ Ec ∧ Ec ≤ 6112)
+    (hV : 0 < V) (hmx : m ≤ eMax) (hEc : -6176 ≤ Ec ∧ Ec ≤ 6300)
     (hpre : FinalPre V m c Ec ML MG L G tiny) :
     Done (finalK p1 p2 p3 p4 rm pf res zs e3 scale ind x0 ML MG L G ML0 MG0 L0 G0 incr lsb tiny R64 tmp64 P128 R128 P192 R192 R256)
       (specW rm s V m) (specF rm s V m pf) := by
@@ -5649,7 +5649,7 @@ theorem uflowRest_spec (p1 p2 p3 p4 : Bool) (rm : RoundingMode) (pf : UInt32) (r
     (P128 R128 : U128) (P192 R192 : U192) (R256 : U256)
     (s : Bool) (V : Nat) (m : Int) (c : Nat) (Ec : Int)
     (hres : val128 res = c) (he3 : e3.toInt = Ec) (hzs : zs.toNat = (if s = true then 1 else 0) * 2^63)
-    (hV : 0 < V) (hmx : m ≤ eMax) (hEc : -6300 ≤ Ec ∧ Ec ≤ 6112) (hc0 : 0 < c) (hc34 : c ≤ P34)
+    (hV : 0 < V) (hmx : m ≤ eMax) (hEc : -6300 ≤ Ec ∧ Ec ≤ 6300) (hc0 : 0 < c) (hc34 : c ≤ P34)
     (hmo : MainOut V m c Ec ⟨ML, MG, L, G⟩) :
     Done (uflowRestLit p1 p2 p3 p4 rm pf res zs e3 scale ind x0 ML MG L G ML0 MG0 L0 G0 incr lsb false R64 tmp64 P128 R128 P192 R192 R256)
       (specW rm s V m) (specF rm s V m pf) := by
@@ -5773,6 +5773,32 @@ structure LoopPre (c3 c4 S X : Nat) (E0 : Int) (same : Bool) (m : Int) (V : Nat)
   hV : V = if same = true then c3 * 10 ^ S * 10 ^ X + c4 else c3 * 10 ^ S * 10 ^ X - c4
   hdom : same = false → 10 * c4 < c3 * 10 ^ S * 10 ^ X
 
+/-- `LoopPre` for the block's SECOND use (after the operand exchange of Cases (9), (10), (13), (14), (18), when `c3` is the product
+and its exponent `E0 = e1 + e2` may lie outside the format's range): instead of the range of `E0` only the position of the leading
+digit of `c3` is known — not below `10^emin` (since `delta ≥ 0`) and not above `10^6177` (since `delta ≤ 33`) -/
+structure LoopPreW (c3 c4 S X : Nat) (E0 : Int) (same : Bool) (m : Int) (V : Nat) : Prop where
+  hc3 : 0 < c3
+  hS : ndigits c3 + S ≤ 34
+  hc4 : 0 < c4
+  hQ4 : ndigits c4 ≤ 68
+  hX : X = 0 ∨ X + 1 ≤ ndigits c4
+  hfit : ndigits c4 - X ≤ 34
+  h58 : 58 ≤ ndigits c4 → 1 ≤ X → 21 ≤ X
+  h128 : X = 0 → c4 < P34
+  hlead : eMin + 1 ≤ (ndigits c3 : Int) + E0 ∧ (ndigits c3 : Int) + E0 ≤ 6178
+  hm : m + X = E0 - S
+  hx33 : X = 0 ∨ ndigits c3 + S = 34
+  hV : V = if same = true then c3 * 10 ^ S * 10 ^ X + c4 else c3 * 10 ^ S * 10 ^ X - c4
+  hdom : same = false → 10 * c4 < c3 * 10 ^ S * 10 ^ X
+
+/-- the first use is an instance of the second -/
+theorem LoopPre.toW {c3 c4 S X : Nat} {E0 : Int} {same : Bool} {m : Int} {V : Nat} (h : LoopPre c3 c4 S X E0 same m V) :
+    LoopPreW c3 c4 S X E0 same m V := by
+  obtain ⟨hc3, hS, hc4, hQ4, hX, hfit, h58, h128, hE0, hm, hx33, hV, hdom⟩ := h
+  have := ndigits_pos hc3
+  have hMin : eMin = -6176 := rfl
+  exact ⟨hc3, hS, hc4, hQ4, hX, hfit, h58, h128, ⟨by omega, by omega⟩, hm, hx33, hV, hdom⟩
+
 /-- **the entry invariant of the block** (after the front end of `bid128_ext_fma`): `z = ±c3·10^E3` with `q3` digits, the exact
 product `±c4·10^E4` with `q4` digits, `delta = q3 + e3 − q4 − e4` in `[0, 33]` (larger `delta` went to Cases (1)), the sign
 words, `p34 = 34` -/
@@ -5889,7 +5915,7 @@ theorem sumRest_same (p1 p2 p3 p4 : Bool) (rm : RoundingMode) (pf : UInt32) (res
       rw [show (⟨D.2.midLtEven, D.2.midGtEven, D.2.inexLtMid, D.2.inexGtMid⟩ : Ind) = D.2 from rfl, htl]
     rw [htl']
     have he3' : (e3 + 1).toInt = E + 1 := Dec.C02GenCorrection.i32_add1 e3 E he3 (by omega) (by omega)
-    have hEb : -6300 ≤ E + 1 ∧ E + 1 ≤ 6112 := by omega
+    have hEb : -6300 ≤ E + 1 ∧ E + 1 ≤ 6300 := by omega
     have hcp : 0 < D.1 := by omega
     have hc34' : D.1 ≤ P34 := by omega
     have hmo' : MainOut (A * T + C4) m D.1 (E + 1) ⟨D.2.midLtEven, D.2.midGtEven, D.2.inexLtMid, D.2.inexGtMid⟩ := hmo
@@ -6190,8 +6216,8 @@ theorem forIn_done2 {σ : Type} (f : Nat → σ → Except String (ForInStep σ)
   rw [List.range'_succ, List.forIn_cons, h2]
   rfl
 
-/-- the first turn's preconditions, from the loop's -/
-theorem TurnPre.first {c3 c4 S X : Nat} {E0 : Int} {same : Bool} {m : Int} {V : Nat} (h : LoopPre c3 c4 S X E0 same m V) :
+/-- the first turn's preconditions, from the loop's (wide form) -/
+theorem TurnPre.firstW {c3 c4 S X : Nat} {E0 : Int} {same : Bool} {m : Int} {V : Nat} (h : LoopPreW c3 c4 S X E0 same m V) :
     TurnPre c3 c4 S X E0 same m V := by
   have e34 : P34 = 10 ^ 34 := by decide
   have e33 : P33 = 10 ^ 33 := by decide
@@ -6218,21 +6244,27 @@ theorem TurnPre.first {c3 c4 S X : Nat} {E0 : Int} {same : Bool} {m : Int} {V : 
       calc P33 = 10 ^ (ndigits c3 - 1) * 10 ^ S := by rw [e33, ← Nat.pow_add]; congr 1; omega
         _ ≤ c3 * 10 ^ S := Nat.mul_le_mul_right _ hlo
   · intro hlt
-    calc 10 ^ (eMin - (E0 - ↑S)).toNat ≤ 10 ^ S := Nat.pow_le_pow_right (by decide) (by omega)
-      _ ≤ c3 * 10 ^ S := hAS
+    have hlo := (ndigits_spec hc3).1
+    calc 10 ^ (eMin - (E0 - ↑S)).toNat ≤ 10 ^ (ndigits c3 - 1 + S) := Nat.pow_le_pow_right (by decide) (by omega)
+      _ = 10 ^ (ndigits c3 - 1) * 10 ^ S := Nat.pow_add _ _ _
+      _ ≤ c3 * 10 ^ S := Nat.mul_le_mul_right _ hlo
   · intro hs
     have : c3 * 10 ^ S * 10 ^ X < P34 * 10 ^ X := Nat.mul_lt_mul_of_pos_right hA34 hpX
     omega
 
 
-/-- the second turn's preconditions, from the first turn's and the condition that asked for it -/
-theorem TurnPre.second {c3 c4 S X : Nat} {E0 : Int} {m : Int} {V : Nat} (h : LoopPre c3 c4 S X E0 false m V)
+/-- the first turn's preconditions, from the loop's -/
+theorem TurnPre.first {c3 c4 S X : Nat} {E0 : Int} {same : Bool} {m : Int} {V : Nat} (h : LoopPre c3 c4 S X E0 same m V) :
+    TurnPre c3 c4 S X E0 same m V := TurnPre.firstW h.toW
+
+/-- the second turn's preconditions, from the first turn's and the condition that asked for it (wide form) -/
+theorem TurnPre.secondW {c3 c4 S X : Nat} {E0 : Int} {m : Int} {V : Nat} (h : LoopPreW c3 c4 S X E0 false m V)
     (R : Nat) (fl1 : Ind) (h1 : NE c4 (10 ^ X) R fl1) (hrep : RepCond (c3 * 10 ^ S) X (E0 - S) R fl1) :
     TurnPre c3 c4 (S + 1) (X - 1) E0 false m V ∧
     (∀ (R' : Nat) (fl' : Ind), NE c4 (10 ^ (X - 1)) R' fl' → ¬ RepCond (c3 * 10 ^ (S + 1)) (X - 1) (E0 - (S + 1 : Nat)) R' fl') := by
   have e34 : P34 = 10 ^ 34 := by decide
   have hMin : eMin = -6176 := rfl
-  have tp := TurnPre.first h
+  have tp := TurnPre.firstW h
   obtain ⟨hc3, hS, hc4, hQ4, hX, hfit, h58, h128, hE0, hm, hx33, hV, hdom⟩ := h
   have hQ1 : 1 ≤ ndigits c3 := ndigits_pos hc3
   have hX1 : 1 ≤ X := hrep.2.2
@@ -6271,6 +6303,13 @@ theorem TurnPre.second {c3 c4 S X : Nat} {E0 : Int} {m : Int} {V : Nat} (h : Loo
     rw [eA, hE']
     exact this
 
+/-- the second turn's preconditions, from the first turn's and the condition that asked for it -/
+theorem TurnPre.second {c3 c4 S X : Nat} {E0 : Int} {m : Int} {V : Nat} (h : LoopPre c3 c4 S X E0 false m V)
+    (R : Nat) (fl1 : Ind) (h1 : NE c4 (10 ^ X) R fl1) (hrep : RepCond (c3 * 10 ^ S) X (E0 - S) R fl1) :
+    TurnPre c3 c4 (S + 1) (X - 1) E0 false m V ∧
+    (∀ (R' : Nat) (fl' : Ind), NE c4 (10 ^ (X - 1)) R' fl' → ¬ RepCond (c3 * 10 ^ (S + 1)) (X - 1) (E0 - (S + 1 : Nat)) R' fl') :=
+  TurnPre.secondW h.toW R fl1 h1 hrep
+
 
 open Dec.RH (Ind)
 open Dec.Rs Dec.Gen.Code
@@ -6279,25 +6318,29 @@ open Dec.C02GenCorrection (modeOf)
 
 set_option maxRecDepth 20000 in
 set_option maxHeartbeats 2000000 in
-/-- **the `'case2_repeat` loop returns the specified result** (in one or two turns; the fuel is never used up) -/
-theorem loop_spec (p1 p2 p3 p4 : Bool) (rm : RoundingMode) (pf : UInt32) (res : U128) (zs ps : UInt64) (C3 : U128) (C4 : U256)
+/-- **the `'case2_repeat` loop returns the specified result** (in one or two turns; the fuel is never used up) — wide form, for both
+uses of the block -/
+theorem loop_specW (p1 p2 p3 p4 : Bool) (rm : RoundingMode) (pf : UInt32) (res : U128) (zs ps : UInt64) (C3 : U128) (C4 : U256)
     (q3 q4 e3 scale ind x0 : Int32) (ML0 MG0 L0 G0 incr lsb : Bool) (R64 tmp64 : UInt64)
     (P128 R128 : U128) (P192 R192 : U192) (R256 : U256)
     (sz same : Bool) (c3 c4 S X : Nat) (E0 m : Int) (V : Nat)
     (hC3 : val128 C3 = c3) (hq3 : q3.toInt = ndigits c3) (hsc : scale.toInt = S) (hx0 : x0.toInt = X) (he3 : e3.toInt = E0)
     (hC4 : val256 C4 = c4) (hq4 : 1 ≤ X → q4.toInt = ndigits c4) (hsg : (zs == ps) = same)
     (hzs : zs.toNat = (if sz = true then 1 else 0) * 2^63) (hmx : m ≤ eMax)
-    (lp : LoopPre c3 c4 S X E0 same m V) :
+    (lp : LoopPreW c3 c4 S X E0 same m V) :
     ∃ a b c d : Bool,
       loopLit p1 p2 p3 p4 rm pf res zs ps C3 C4 q3 q4 e3 scale ind x0 false false false false ML0 MG0 L0 G0 incr lsb false R64 tmp64
         P128 R128 P192 R192 R256 = .ok (specW rm sz V m, a, b, c, d, specF rm sz V m pf) := by
-  have hE0 := lp.hE0
+  have hE0 := lp.hlead
+  have hMin : eMin = -6176 := rfl
+  have hQ1 := ndigits_pos lp.hc3
+  have hS0 := lp.hS
   have hS34 : S ≤ 33 := by have := lp.hS; have := ndigits_pos lp.hc3; omega
   rw [loopLit_eq]
   unfold loopK
   simp only [bind, Except.bind, pure, Except.pure]
   have t1 := turn_spec p1 p2 p3 p4 rm pf res zs ps C3 C4 q3 q4 e3 scale ind x0 ML0 MG0 L0 G0 incr lsb R64 tmp64 P128 R128 P192 R192 R256
-    sz same c3 c4 S X E0 m V hC3 hq3 hsc hx0 he3 hC4 hq4 hsg hzs hmx (by omega) (TurnPre.first lp)
+    sz same c3 c4 S X E0 m V hC3 hq3 hsc hx0 he3 hC4 hq4 hsg hzs hmx (by omega) (TurnPre.firstW lp)
   rcases t1 with ⟨a, b, c, d, st, hd⟩ | ⟨hs, R, fl1, h1, hrep, r, lsb', t, R64', P128', R128', P192', R192', R256', hy⟩
   · -- one turn
     have hd' : iterK rm ps C3 C4 q3 q4 (none, p1, p2, p3, p4, pf, res, zs, e3, scale, ind, x0, false, false, false, false, ML0, MG0, L0,
@@ -6306,7 +6349,7 @@ theorem loop_spec (p1 p2 p3 p4 : Bool) (rm : RoundingMode) (pf : UInt32) (res : 
     exact ⟨a, b, c, d, rfl⟩
   · -- two turns
     subst hs
-    obtain ⟨tp2, hnr⟩ := TurnPre.second lp R fl1 h1 hrep
+    obtain ⟨tp2, hnr⟩ := TurnPre.secondW lp R fl1 h1 hrep
     have hX1 : 1 ≤ X := hrep.2.2
     have hX68 : X ≤ 68 := by have := lp.hX; have := lp.hQ4; omega
     have hsc2 : (scale + 1).toInt = ((S + 1 : Nat) : Int) := by
@@ -6327,6 +6370,21 @@ theorem loop_spec (p1 p2 p3 p4 : Bool) (rm : RoundingMode) (pf : UInt32) (res : 
       rw [forIn_done2 (fun _ st => iterK rm ps C3 C4 q3 q4 st) _ _ _ 4094 hy' hd']
       exact ⟨a, b, c, d, rfl⟩
     · exact absurd hrep' (hnr R' fl' h')
+
+/-- **the `'case2_repeat` loop returns the specified result** (in one or two turns; the fuel is never used up) -/
+theorem loop_spec (p1 p2 p3 p4 : Bool) (rm : RoundingMode) (pf : UInt32) (res : U128) (zs ps : UInt64) (C3 : U128) (C4 : U256)
+    (q3 q4 e3 scale ind x0 : Int32) (ML0 MG0 L0 G0 incr lsb : Bool) (R64 tmp64 : UInt64)
+    (P128 R128 : U128) (P192 R192 : U192) (R256 : U256)
+    (sz same : Bool) (c3 c4 S X : Nat) (E0 m : Int) (V : Nat)
+    (hC3 : val128 C3 = c3) (hq3 : q3.toInt = ndigits c3) (hsc : scale.toInt = S) (hx0 : x0.toInt = X) (he3 : e3.toInt = E0)
+    (hC4 : val256 C4 = c4) (hq4 : 1 ≤ X → q4.toInt = ndigits c4) (hsg : (zs == ps) = same)
+    (hzs : zs.toNat = (if sz = true then 1 else 0) * 2^63) (hmx : m ≤ eMax)
+    (lp : LoopPre c3 c4 S X E0 same m V) :
+    ∃ a b c d : Bool,
+      loopLit p1 p2 p3 p4 rm pf res zs ps C3 C4 q3 q4 e3 scale ind x0 false false false false ML0 MG0 L0 G0 incr lsb false R64 tmp64
+        P128 R128 P192 R192 R256 = .ok (specW rm sz V m, a, b, c, d, specF rm sz V m pf) :=
+  loop_specW p1 p2 p3 p4 rm pf res zs ps C3 C4 q3 q4 e3 scale ind x0 ML0 MG0 L0 G0 incr lsb R64 tmp64 P128 R128 P192 R192 R256
+    sz same c3 c4 S X E0 m V hC3 hq3 hsc hx0 he3 hC4 hq4 hsg hzs hmx lp.toW
 
 
 end Dec.C02GenFmaMid
